@@ -620,7 +620,13 @@ impl Network {
         if results_count > 1 {
             let mut record_kind = None;
             info!("For record {pretty_key:?}, we have more than one result returned.");
-            for (record, _) in result_map.values() {
+            // Visit the versions in the order of their content hash (the key of the map), not in the
+            // arbitrary iteration order of a HashMap: which kind is expected, which register base the
+            // others are merged into and which of several scratchpads with the same highest count is kept
+            // must be the same for everyone who holds the same set of versions.
+            let mut versions: Vec<_> = result_map.iter().collect();
+            versions.sort_by_key(|(content_hash, _)| **content_hash);
+            for (_, (record, _)) in versions {
                 let Ok(header) = RecordHeader::from_record(record) else {
                     continue;
                 };
